@@ -1,4 +1,150 @@
+//! C20 — serialized colours deserialize to the same colour in a stable shape.
+//!
+//! The serde *format* is the environment and the harness owns it: serde_json, ron 0.8 and a
+//! TokenFormat (tok.rs) that records the exact data-model calls and replays them the ways real
+//! formats do (visit_map with str/bytes/index keys, visit_seq delimited by the data, visit_seq
+//! with a fixed requested length). Every serializable palette type and a family of mock colour
+//! types of every serde shape are pushed through every format for a lattice of component
+//! values; the map form is additionally fed in every field order, with the alpha entry
+//! missing, duplicated and with unknown extra entries.
+mod cases;
+mod checks;
+mod fmt;
+mod mocks;
+mod registry;
+mod tok;
+
+use pv::{Collector, Ctx, Mode, Tier};
+use std::collections::BTreeMap;
+
+pub struct Cfg {
+    pub tier: Tier,
+    pub seed: u64,
+}
+
+/// outcome tallies (aggregated outside the collectors: notes do not add up on merge)
+#[derive(Default, Clone)]
+pub struct Stats(pub BTreeMap<String, u64>);
+impl Stats {
+    pub fn bump(&mut self, k: &str) {
+        *self.0.entry(k.to_string()).or_insert(0) += 1;
+    }
+    pub fn merge(&mut self, o: Stats) {
+        for (k, v) in o.0 {
+            *self.0.entry(k).or_insert(0) += v;
+        }
+    }
+}
+
 fn main() {
-    eprintln!("C20: check not built yet");
-    std::process::exit(3);
+    pv::main_guard(real_main)
+}
+
+fn real_main() -> i32 {
+    tok_selftest();
+    let (ctx, mode) = Ctx::from_args("C20");
+    let items = registry::items();
+    if let Mode::Replay(rep) = mode {
+        let mut c = Collector::new();
+        let case = &rep["case"];
+        let name = case["item"].as_str().unwrap_or("");
+        match items.iter().find(|i| i.name == name) {
+            Some(it) => (it.replay)(&mut c, case),
+            None => {
+                eprintln!("MACHINERY-FAILURE: replay names unknown item {name:?}");
+                return 3;
+            }
+        }
+        return ctx.finish_replay(c);
+    }
+    let cfg = Cfg { tier: ctx.tier, seed: ctx.seed };
+    let wanted: Vec<&registry::Item> = items.iter().filter(|i| ctx.wants(i.sub) || ctx.wants(&i.name)).collect();
+    let outs = pv::par::map_chunks(wanted.len(), |i| {
+        let mut c = Collector::new();
+        let mut st = Stats::default();
+        (wanted[i].run)(&cfg, &mut c, &mut st);
+        (c, st)
+    });
+    let mut total = Collector::new();
+    let mut stats = Stats::default();
+    for (c, st) in outs {
+        total.merge(c);
+        stats.merge(st);
+    }
+    checks::describe_bounds(&mut total, &cfg);
+    if ctx.only.is_none() {
+        checks::probes(&mut total);
+    }
+    total.note("outcome_tallies", pv::json!(stats.0));
+    total.note("items", pv::json!(wanted.len()));
+    total.note(
+        "types_not_serializable",
+        pv::json!("Cam16, Cam16Jch/Jmh/Jsh/Qch/Qmh/Qsh (partial CAM16) and cast::Packed do not implement Serialize/Deserialize in the pinned tree; of the CAM16 family only Cam16UcsJab and Cam16UcsJmh do"),
+    );
+    ctx.finish(
+        total,
+        "model_checking",
+        "a state is (type, component lattice indices, format, input variant); every state of the stated product is executed on the real Serialize/Deserialize impls. Non-trivial = states whose control passed (every part of the value survives the format on its own) so that the outcome was compared bitwise with the input / the predicted token stream",
+        &[
+            "serde_json 1.x, ron 0.8.0 and the harness' TokenFormat are the environment; a value that a format cannot carry on its own (NaN/inf in JSON, NaN payloads and u128 in RON, flattened structs in RON and in positional formats) is skipped for that format and counted under outcome_tallies",
+            "'bare number' for a hue is judged in the serde data model: one float, optionally inside serialize_newtype_struct (which serde documents as an insignificant wrapper); JSON text must be a number literal",
+            "documented limitation, not flagged: AlphaDeserializer::deserialize_struct cannot extend the expected field list ('we just hope it works anyway'), so positional formats that hand out exactly fields.len() elements (tok-fixed, bincode-like) and serde's own flatten buffer do not see the alpha of a struct-shaped colour; outcomes there must be an error or the right value, and are tallied",
+            "for inputs the statement is silent about (duplicate alpha, unknown extra field, colour types with their own `alpha` field, nested Alpha, Vec, primitives, enums) the oracle is: an error, the documented unimplemented! panic, or the right value — never a wrong value",
+        ],
+    )
+}
+
+/// TokenFormat must be faithful before it can judge anything (machinery failure otherwise)
+fn tok_selftest() {
+    use crate::tok::*;
+    let m = mocks::MMixed {
+        id: 3,
+        name: "x\"y".into(),
+        v: 0.5,
+        opt: Some(1.5),
+        none: None,
+        arr: [1.0, 2.0],
+        inner: mocks::MStruct { a: 0.1, b: -0.0, c: f32::MAX },
+        list: vec![3.0],
+        unit: (),
+        t: (4.0, 7),
+    };
+    let fail = |what: &str| -> ! {
+        eprintln!("MACHINERY-FAILURE: TokenFormat self-test: {what}");
+        std::process::exit(3)
+    };
+    let t = to_toks(&m, true).unwrap_or_else(|e| fail(&e.0));
+    // replaying the tokens into the recorder reproduces them
+    let t2 = to_toks(&Node(&t, 0), true).unwrap_or_else(|e| fail(&e.0));
+    if t != t2 {
+        fail("Node replay is not the identity");
+    }
+    // replaying them into serde_json gives what serde_json gives for the value
+    if serde_json::to_string(&Node(&t, 0)).unwrap() != serde_json::to_string(&m).unwrap() {
+        fail("Node replay into serde_json differs from direct serialization");
+    }
+    if ron::to_string(&Node(&t, 0)).unwrap() != ron::to_string(&m).unwrap() {
+        fail("Node replay into ron differs from direct serialization");
+    }
+    for (s, k) in [(StructAs::Map, Key::Str), (StructAs::Map, Key::Index), (StructAs::Map, Key::Bytes), (StructAs::Seq, Key::Str), (StructAs::Fixed, Key::Str)] {
+        match from_toks::<mocks::MMixed>(&t, s, k) {
+            Ok(y) if to_toks(&y, true).unwrap() == t => {}
+            Ok(_) => fail(&format!("{s:?}/{k:?} replay changed the value")),
+            Err(e) => fail(&format!("{s:?}/{k:?} replay failed: {e}")),
+        }
+    }
+    // the fixed mode hands out exactly the requested number of elements and is strictly typed
+    let three = to_toks(&(1.0f32, 2.0f32, 3.0f32), false).unwrap();
+    if from_toks::<(f32, f32)>(&three, StructAs::Fixed, Key::Str).is_ok() {
+        fail("fixed mode accepted unread elements");
+    }
+    if from_toks::<(f32, f32, f32, f32)>(&three, StructAs::Fixed, Key::Str).is_ok() {
+        fail("fixed mode read past the value");
+    }
+    if from_toks::<(f32, f32, u32)>(&three, StructAs::Fixed, Key::Str).is_ok() {
+        fail("fixed mode is not strictly typed");
+    }
+    if !matches!(from_toks::<Vec<f32>>(&three, StructAs::Seq, Key::Str), Ok(v) if v.len() == 3) {
+        fail("delimited mode does not deliver all elements");
+    }
 }
